@@ -84,6 +84,40 @@ def one_repo(run, g, seed, quick, cipher=None, cache=False):
         return t, count
 
 
+def big_repo(run, g, seed, quick, cipher=None):
+    """the same experiment at the chunk sizes of the DEFAULT settings (128 kB - 5.12 MB chunks): code paths that depend on the size of
+    a chunk (buffering, thresholds, streamed vs. in-memory handling) are invisible with the miniature chunker used elsewhere"""
+    with harness.scratch() as d:
+        s = repodrv.Session(g, d, seed=seed, cipher=cipher, min_length=None, max_length=None)
+        r = s.rng
+        files = [s.write_file('big.bin', r.randbytes(5_000_000 if quick else 14_000_000)), s.write_file('small.bin', r.randbytes(3000))]
+        s.snapshot(s.users[0], files)
+        objs = dict(s.store.objs)
+        names = sorted((n for n in objs if n.startswith('data/')), key=lambda n: -len(objs[n]))
+        count = 0
+        for name in names[:3 if quick else 8]:
+            blob = objs[name]
+            n = len(blob)
+            others = [b for m, b in objs.items() if m != name and m.startswith('data/')]
+            kinds = [('bitflip@0', bytes([blob[0] ^ 1]) + blob[1:]), ('bitflip@mid', blob[:n // 2] + bytes([blob[n // 2] ^ 16]) + blob[n // 2 + 1:]),
+                     ('bitflip@last', blob[:-1] + bytes([blob[-1] ^ 128])), ('truncate@n-1', blob[:-1]), ('truncate@half', blob[:n // 2]),
+                     ('extend+1', blob + b'\x00')] + ([('replaced-by-chunk', max(others, key=len))] if others else [])
+            for kind, new in kinds:
+                s.store.objs[name] = new
+                s._marker('out', {'a': 'tamper', 'p': 1, 'kind': kind, 'area': 'chunk', 's': 0, 'gone': False, 'name': name[:40]}, 'out')
+                s.ctx = 'chunk %s default-sizes len=%d' % (kind.split('@')[0], n)
+                for u in s.users[:2]:
+                    s.restore(u, fault=True)
+                s.ctx = None
+                s.store.objs[name] = blob
+                s._marker('out', {'a': 'repair', 'p': 1, 's': 0, 'gone': False}, 'out')
+                count += 1
+                run.case((g, seed, cipher and cipher.get('name'), 'default-sizes', n, kind))
+        t = s.trace(extra={'history': ['%d tampers on the %d largest chunks (default chunker, largest %d bytes)' % (count, min(len(names), 8), len(objs[names[0]]))],
+                           'opts': {'cipher': cipher, 'sizes': 'default'}})
+        return t, count
+
+
 def main(run):
     quick = run.tier == 'quick'
     base = open(os.path.join(tlc.SPEC_DIR, 'MC_Tamper.cfg')).read()
@@ -108,6 +142,10 @@ def main(run):
             t, n = one_repo(run, g, seed, quick, cipher, cache)
             traces.append(t)
             total += n
+    for j, (g, cipher) in enumerate([('plain', None), ('shared', None)] + ([] if quick else [('shared', {'name': 'chacha20_poly1305'})])):
+        t, n = big_repo(run, g, run.seed * 10 + 50 + j, quick, cipher)
+        traces.append(t)
+        total += n
     rc.validate(run, traces, CLAUSES, label='c04.tamper')
     run.add(tampered_restores=total)
     run.coverage['rule'] = ('a case is one tamper (bit flip at an offset, truncation to a length, extension, replacement by another object of the same '
